@@ -146,6 +146,16 @@ func checkC02(c *CheckCtx) error {
 	if err := c.randomFraming(c.pick(100, 2000), allAPIs, []string{"default", "ci", "color", "other", "clean"}, 0.8, "r"); err != nil {
 		return err
 	}
+	var rf []*Scenario
+	for _, api := range []string{"json", "sjson"} {
+		for _, sc := range reformatted(api, "rf"+api) {
+			sc.Tags = append(sc.Tags, "also:C02")
+			rf = append(rf, sc)
+		}
+	}
+	if err := c.repro(rf...); err != nil {
+		return err
+	}
 	return c.diffPairs()
 }
 
